@@ -28,8 +28,13 @@ def replay_sub(path):
     """which harness subcommand a replay file belongs to (first line's mode)"""
     import json
     try:
-        first = open(path).readline()
-        return json.loads(first).get("mode", "")
+        first = json.loads(open(path).readline())
+        mode = first.get("mode", "")
+        if mode == "ops" and first.get("inRun"):
+            return "algo"
+        if mode in ("sel", "live", "mix", "bench"):
+            return "dir"
+        return mode
     except Exception:
         return ""
 
